@@ -16,11 +16,11 @@ CHECKS = {
         ref="DESIGN.md section 0.7 and 5 C01", note="Remaining premises of the whole-run theorem (run_setup): collision-freeness of the content at every piece, one file per export path, no two export paths initially hard-linked; the wf_piece side conditions are now PROVED from the layout theorems for every piece of the work list (C01_every_work_piece_good)."),
     "C02": dict(
         technique="Coq proof (candidate index complete and sound for every hash-map order; de-duplication keeps representatives; exhaustive combination search; available => Success with the segments written) + trace validation + independent availability oracle",
-        text="C02_present_means_recovered (AvailProofs.v): C02 as stated - index = exactly the registered set of the start state, each segment present in a regular file of the declared length under a scan directory or at an export location that the run cannot damage, nothing in the way => Success and in place, for every hash-map order and interleaving. C02_stably_available_means_recovered / C02_stable_availability_is_invariant (RerunProofs.v): when each witness is a file the table owns no path of, or an export image already verifying for its own entry, availability at the START is kept in every reachable state (a theorem, not a hypothesis) and the piece is recovered. C02_available_means_recovered (CompleteProofs.v + EstablishProofs.v): in a fault-free run of the whole system, under every interleaving, all of whose states keep the piece available and unobstructed, the piece's evaluation can only return Success and every non-padding segment is then in place in the export tree. C02_candidates_complete/sound, C02_witnesses_give_combination, C02_search_exhaustive, C02_available_piece_recovered: at the program level, a piece whose every segment has a readable candidate holding the torrent's bytes succeeds and writes every segment not sourced from its own export file. Tied to the code by replaying 300 (3000) generated runs against the model and by an availability oracle computed from the initial snapshot.",
+        text="C02_present_means_recovered (AvailProofs.v): C02 as stated - index = exactly the registered set of the start state, each segment present in a regular file of the declared length under a scan directory or at an export location that the run cannot damage, nothing in the way => Success and in place, for every hash-map order and interleaving. C02_stably_available_means_recovered / C02_stable_availability_is_invariant (RerunProofs.v): when each witness is a file the table owns no path of, or an export image already verifying for its own entry, availability at the START is kept in every reachable state (a theorem, not a hypothesis) and the piece is recovered. C02_available_means_recovered (CompleteProofs.v + EstablishProofs.v): in a fault-free run of the whole system, under every interleaving, all of whose states keep the piece available and unobstructed, the piece's evaluation can only return Success and every non-padding segment is then in place in the export tree. C02_candidates_complete/sound, C02_witnesses_give_combination, C02_search_exhaustive, C02_available_piece_recovered: at the program level, a piece whose every segment has a readable candidate holding the torrent's bytes succeeds and writes every segment not sourced from its own export file. Tied to the code by replaying 300 (3000) generated runs against the model and by an availability oracle computed from the initial snapshot. Worlds contain symbolic links where the tool resolves them (export files linked to complete files elsewhere, scan roots given through links), candidate names that are not valid UTF-8 (incl. pairs with the same lossy rendering), directory arguments under other spellings.",
         ref="DESIGN.md section 5 C02", note="Statement-level hypotheses: fault-free run, the witnesses stay in place and nothing obstructs the export paths in every state of the run (avail), collision-freeness, the torrent's hash is the hash of the content; the file-system effect of the emitted operations is the FS model's (validated against real runs)."),
     "C03": dict(
         technique="Coq proof (every mutating op targets an entry's export path or its parent; table paths confined to export/<hex>/Data; open modes from Generated.v) + whole-sandbox snapshot oracle + trace validation",
-        text="C03_targets_confined, C03_open_modes (re-extracted flags), C03_resize_ops_on_targets, C03_unnamed_inodes_unchanged and the plain-name clause of the loader; tied to the code by before/after snapshots of the whole sandbox, every open mode in the fs-shim log, scan directories overlapping/containing the export directory, and trace validation. WHOLE RUN (SystemModel/SystemProofs/GlueProofs): the scanning phase is a transition system (pool of piece programs over one shared file system; steps = any program's next action, failed operations, arbitrary read answers, a write cut short); C03_whole_run_outside_untouched: in every reachable state no path is removed or retyped, every inode that is not an export image keeps its exact content, and whatever appears is an export image or a directory on the way to one.",
+        text="C03_targets_confined, C03_open_modes (re-extracted flags), C03_resize_ops_on_targets, C03_unnamed_inodes_unchanged and the plain-name clause of the loader; tied to the code by before/after snapshots of the whole sandbox, every open mode in the fs-shim log, scan directories overlapping/containing the export directory, and trace validation. WHOLE RUN (SystemModel/SystemProofs/GlueProofs): the scanning phase is a transition system (pool of piece programs over one shared file system; steps = any program's next action, failed operations, arbitrary read answers, a write cut short); C03_whole_run_outside_untouched: in every reachable state no path is removed or retyped, every inode that is not an export image keeps its exact content, and whatever appears is an export image or a directory on the way to one. Further streams: an export argument spelled through a symbolic link and '..' (dotdot), directory arguments under other spellings and with names that are not valid UTF-8, the process' working directory / HOME / TMPDIR inside the sandbox and listed afterwards, and a sample of runs under strace (every successful creating / modifying / renaming / removing system call must name a path inside the sandbox).",
         ref="DESIGN.md section 5 C03", note="Lexical confinement: assumes no symbolic link inside an export subtree."),
     "C11": dict(
         technique="Coq proof (cut-off traces of good programs are good, byte invariant under any prefix incl. cut writes, verified ranges survive) + crash injection at every mutating operation with re-run",
@@ -32,11 +32,11 @@ CHECKS = {
         ref="DESIGN.md section 5 C12"),
     "C13": dict(
         technique="Coq proof (unconditional structural facts: an error answer leads to Ret Fault after releasing the lock; lock discipline; goodness for error answers) + fault injection at every file operation (singles and pairs)",
-        text="C13_whole_run_failures_elsewhere_any_schedule: the same END-TO-END statement with every evaluation but the one of piece i free to fail, be answered arbitrarily or be cut in the middle of a write (pstep_but i), under every schedule of the composed executor. C13_fault_ends_the_piece and C13_no_lock_leaked hold for every piece with no hypothesis; C13_ops_before_fault_good; the fs shim fails the k-th operation (open, fstat, read, create_dir_all, set_len, seek, write; pairs too) and each faulty run is replayed against the model and checked for confinement, counters and byte correctness. WHOLE RUN (SystemModel/SystemProofs/GlueProofs): the scanning phase is a transition system (pool of piece programs over one shared file system; steps = any program's next action, failed operations, arbitrary read answers, a write cut short); C13_whole_run_other_pieces_unaffected: after any failures every program still in the pool is good. C13_failure_elsewhere_costs_nothing: with every OTHER program free to fault or be cut, a piece that stays available can still only return Success and is then in place (rely/guarantee, CompleteProofs.v).",
+        text="C13_whole_run_failures_elsewhere_any_schedule: the same END-TO-END statement with every evaluation but the one of piece i free to fail, be answered arbitrarily or be cut in the middle of a write (pstep_but i), under every schedule of the composed executor. C13_fault_ends_the_piece and C13_no_lock_leaked hold for every piece with no hypothesis; C13_ops_before_fault_good; the fs shim fails the k-th operation (open, fstat, read, create_dir_all, set_len, seek, write; pairs too) and each faulty run is replayed against the model and checked for confinement, counters and byte correctness. WHOLE RUN (SystemModel/SystemProofs/GlueProofs): the scanning phase is a transition system (pool of piece programs over one shared file system; steps = any program's next action, failed operations, arbitrary read answers, a write cut short); C13_whole_run_other_pieces_unaffected: after any failures every program still in the pool is good. C13_failure_elsewhere_costs_nothing: with every OTHER program free to fault or be cut, a piece that stays available can still only return Success and is then in place (rely/guarantee, CompleteProofs.v). Stream obstructed: a regular file or a dangling symbolic link where an export directory is needed (real errors, no injection); pieces that need nothing below it keep their guarantees.",
         ref="DESIGN.md section 5 C13"),
     "C14": dict(
         technique="Coq proof (prelude program evaluated against an arbitrary probe-answer function: abort with no mutation on any over-long file; exactly the shorter files extended to the declared length; no mutation without the flag) + pre-flight oracle + prelude trace validation",
-        text="C14_extended_file_counts_as_source: after the pre-flight's SetLen a short export file is present (AvailProofs) at its own export location, so C02_present_means_recovered applies to it. C14_overlong_aborts_before_any_change (any position), C14_extends_exactly_the_shorter_files, C14_no_flag_no_prelude_change, open modes from Generated.v; tied to fix_export_file_lengths by runs over random per-file export states with the flag on and off.",
+        text="C14_extended_file_counts_as_source: after the pre-flight's SetLen a short export file is present (AvailProofs) at its own export location, so C02_present_means_recovered applies to it. C14_overlong_aborts_before_any_change (any position), C14_extends_exactly_the_shorter_files, C14_no_flag_no_prelude_change, open modes from Generated.v; tied to fix_export_file_lengths by runs over random per-file export states with the flag on and off. Stream prefixdirs: sibling export directories one of whose names is a textual prefix of the other, the shorter-named one absent.",
         ref="DESIGN.md section 5 C14", note="A directory sitting at an export path is outside the modelled fragment."),
     "C15": dict(
         technique="Coq proof (rely/guarantee proof that Success implies every segment in place in the fault-free system; counter arithmetic; one line per piece; success only through good traces) + stdout progress-line oracle on real and scheduled runs + trace validation",
@@ -44,7 +44,7 @@ CHECKS = {
         ref="DESIGN.md section 5 C15", note="'Every piece evaluated exactly once' is C05; 'available => succeeded' relies on C02 (checked by oracle here). Known finding K3 (duplicate file paths in one torrent: succeeded pieces that do not verify) is listed in known_findings.json."),
     "C16": dict(
         technique="Coq proof (bad path in any position => Fault with no mutating op; no piece program panics; loader total) + child-process runs (bad paths, no/unloadable torrents, degenerate torrents, CLI binary)",
-        text="Partial: C16_bad_path_no_effect, C16_piece_never_panics, C16_load_total are theorems of the model; allocation failure is runtime (known finding K2). Bad paths of every kind in every position, runs without loadable torrents, degenerate loadable torrents and the CLI binary are exercised as child processes. WHOLE RUN (SystemModel/SystemProofs/GlueProofs): the scanning phase is a transition system (pool of piece programs over one shared file system; steps = any program's next action, failed operations, arbitrary read answers, a write cut short); C16_whole_run_no_panic; C16_loaded_torrent_ok ties the loader to the premises of the layout/work-list theorems.",
+        text="Partial: C16_bad_path_no_effect, C16_piece_never_panics, C16_load_total are theorems of the model; allocation failure is runtime (known finding K2). Bad paths of every kind in every position, runs without loadable torrents, degenerate loadable torrents and the CLI binary are exercised as child processes. WHOLE RUN (SystemModel/SystemProofs/GlueProofs): the scanning phase is a transition system (pool of piece programs over one shared file system; steps = any program's next action, failed operations, arbitrary read answers, a write cut short); C16_whole_run_no_panic; C16_loaded_torrent_ok ties the loader to the premises of the layout/work-list theorems. Streams: near-loadable documents (a degenerate value in the name / path variant the loader uses, same-length files on disk: the run must do nothing); a FIFO at an export location (known finding K4).",
         ref="DESIGN.md section 5 C16", note="Allocation failure and thread panics at join are runtime."),
     "C04": dict(
         technique="Coq proof (export file first for every hash-map order; verified piece => Success with NO mutating operation; verified ranges survive every admissible operation; no truncate flags) + histories of runs with write-log oracle",
@@ -56,7 +56,7 @@ CHECKS = {
         ref="DESIGN.md section 5 C05", note="std Mutex/thread semantics and the memory model are assumed; the shim assumes sequential consistency at scheduling points."),
     "C06": dict(
         technique="Coq proof (induction over the cursor loop, closed-form interval spec) + differential run of the extracted model against Pieces::from_torrent",
-        text="Theorems C06_layout_multi / C06_layout_single / C06_hash_count and the partition theorems hold for all file-length vectors and piece lengths with u64 checks explicit; the model is tied to pieces.rs by an exhaustive small-vector and u64-boundary differential run with an independent interval oracle; C06_loaded_torrent_layout: for every torrent the loader returns the layout model returns Ok with non-empty pieces whose segments lie inside the files they name; the loader's hash-count test is run against the model on totals far above 2^64.",
+        text="Theorems C06_layout_multi / C06_layout_single / C06_hash_count and the partition theorems hold for all file-length vectors and piece lengths with u64 checks explicit; the model is tied to pieces.rs by an exhaustive small-vector and u64-boundary differential run with an independent interval oracle; C06_loaded_torrent_layout: for every torrent the loader returns the layout model returns Ok with non-empty pieces whose segments lie inside the files they name; the loader's hash-count test is run against the model on totals far above 2^64. Real runs on torrents with byte-identical pieces at different offsets (A-B-A, zero runs): the work list (convert_pieces_to_work) against the model's work_of, availability oracle.",
         ref="DESIGN.md section 5 C06"),
     "C07": dict(
         technique="Coq proof (info span = encoding of the info value via exact spans; hex round-trip) + differential run against Torrent::from_bytes, get_sha1_hexdigest and the sha1 crate",
@@ -68,11 +68,11 @@ CHECKS = {
         ref="DESIGN.md section 5 C08"),
     "C09": dict(
         technique="Coq proof (no Panic, fuel |x|+1 suffices, loader total) + child-process runs of the real decoder/loader (debug+release, time limit, counting allocator)",
-        text="Partial by nature: C09_decode_no_panic, C09_decode_fuel_linear, C09_load_total are theorems of the models (all unchecked arithmetic/slices modelled as Panic-capable); C09_string/integer_automaton_is_model: the two numeric state machines of parser.rs, modelled state by state with checked_mul/checked_add/checked_sub and the unchecked position increment, are proved equal to the functions the decoder model uses and never to overflow the position; stack depth, time and allocation are runtime and are exercised by child-process runs on numeric adversaries, extreme-number documents, deep nesting and long flat inputs. Known finding K1 (stack overflow on >= 4096-deep nesting) is listed in known_findings.json.",
+        text="Partial by nature: C09_decode_no_panic, C09_decode_fuel_linear, C09_load_total are theorems of the models (all unchecked arithmetic/slices modelled as Panic-capable); C09_string/integer_automaton_is_model: the two numeric state machines of parser.rs, modelled state by state with checked_mul/checked_add/checked_sub and the unchecked position increment, are proved equal to the functions the decoder model uses and never to overflow the position; stack depth, time and allocation are runtime and are exercised by child-process runs on numeric adversaries, extreme-number documents, deep nesting and long flat inputs. Known finding K1 (stack overflow on >= 4096-deep nesting) is listed in known_findings.json. The child processes also build the piece table (Pieces::from_torrent) of every document that loads.",
         ref="DESIGN.md section 0.8 and 5 C09", note="Runtime residue (stack, wall time, allocator) is not provable in the model."),
     "C10": dict(
         technique="Coq proof (loader model on token trees = specification on abstract values with exact-key look-up) + differential run against Torrent::from_bytes on generated documents",
-        text="C10_load_iff_wellformed: a byte string loads iff it is the canonical encoding of a value meeting spec_doc (clauses spelled out in C10_fields_faithful), with every loaded field equal to the value in the input; C10_exact_key: look-ups are by exact key. Tied to torrent.rs by 20k (150k thorough) structured/chaotic documents and a UTF-8 boundary stream, with an independent reference loader as oracle.",
+        text="C10_load_iff_wellformed: a byte string loads iff it is the canonical encoding of a value meeting spec_doc (clauses spelled out in C10_fields_faithful), with every loaded field equal to the value in the input; C10_exact_key: look-ups are by exact key. Tied to torrent.rs by 20k (150k thorough) structured/chaotic documents and a UTF-8 boundary stream, with an independent reference loader as oracle. Stream of well-formed documents in a non-canonical encoding (one defect - zero-padded string length, leading zero / -0 / + in an integer, keys out of order, repeated key, trailing bytes - at one node): none may load.",
         ref="DESIGN.md section 5 C10"),
     "C17": dict(
         technique="Coq proof (sorted+deduplicated torrent list depends only on the set of torrents; candidate lists represent exactly the registered inodes with the export file first for every hash-map order; exhaustive search monotone in candidates) + runs under five presentations of each world",
